@@ -24,8 +24,8 @@
         deadline     with the input closed and the consumer ready from an instant t on, the output is closed by
                      t + (floor(outstanding/Q)+1)*I
         pause        with a ready consumer the first Q elements pass with no pause: e[j] = max(w[j], e[j-1])
-        sched        everything available up-front (input never observed empty before a clock step until all
-                     was written) and a ready consumer: element j (0-based) is emitted at exactly (j div Q)*I
+        sched        everything available up-front (nothing is written after a clock step that was taken with an
+                     empty input) and a ready consumer: element j (0-based) is emitted at exactly (j div Q)*I
         close_time   ... and the output closes at exactly max(t_close_input, (N div Q)*I)
         close_pause  fewer than Q elements in total and a ready consumer: closes at the instant the input closes *)
 EXTENDS Integers, Sequences, FiniteSets, TLC, Json
@@ -34,18 +34,16 @@ TraceLog == ndJsonDeserialize("limit_trace.ndjson")
 NRec == Len(TraceLog)
 ResetPos == {n \in 1..NRec : TraceLog[n].ev = "Reset"}
 Max(a, b) == IF a >= b THEN a ELSE b
-EndOf(r) == IF \E n \in ResetPos : n > r THEN (CHOOSE n \in ResetPos : n > r /\ \A m \in ResetPos : m > r => m >= n) - 1 ELSE NRec
 
-VARIABLES l, done, cq, ci, ocap, nTot,
-          closedIn, tc, nW, wt, rc, rt, em, rdy, eag, dl, seenClosed, bad
-mvars == <<l, done, cq, ci, ocap, nTot, closedIn, tc, nW, wt, rc, rt, em, rdy, eag, dl, seenClosed, bad>>
+VARIABLES l, done, cq, ci, ocap,
+          closedIn, tc, nW, wt, rc, rt, em, rdy, eag, lapse, dl, seenClosed, bad
+mvars == <<l, done, cq, ci, ocap, closedIn, tc, nW, wt, rc, rt, em, rdy, eag, lapse, dl, seenClosed, bad>>
 
 MInit == \E r \in ResetPos :
   /\ l = r /\ done = FALSE
   /\ cq = TraceLog[r].q /\ ci = TraceLog[r].i /\ ocap = TraceLog[r].ocap
-  /\ nTot = Cardinality({n \in r..EndOf(r) : TraceLog[n].ev = "Write"})
   /\ closedIn = FALSE /\ tc = -1 /\ nW = 0 /\ wt = <<>> /\ rc = 0 /\ rt = <<>> /\ em = <<>>
-  /\ rdy = TRUE /\ eag = TRUE /\ dl = -1 /\ seenClosed = FALSE /\ bad = {}
+  /\ rdy = TRUE /\ eag = TRUE /\ lapse = FALSE /\ dl = -1 /\ seenClosed = FALSE /\ bad = {}
 
 Add(b, cond, name, idx) == IF cond /\ ~(\E x \in b : x[1] = name) THEN b \cup {<<name, idx>>} ELSE b
 
@@ -67,7 +65,8 @@ Step ==
          cin1 == closedIn \/ e.ev = "Close"
          tc1 == IF e.ev = "Close" THEN t ELSE tc
          rdy1 == rdy /\ ~(isAdv /\ p.outlen > 0)
-         eag1 == eag /\ ~(isAdv /\ ~(p.inlen >= 1 \/ nW = nTot))
+         lapse1 == lapse \/ (isAdv /\ p.inlen = 0)      \* a clock step was taken with an empty input ...
+         eag1 == eag /\ ~(e.ev = "Write" /\ lapse)       \* ... and something was written later: not up-front
          emN == rc1 + e.outlen
          old == Len(em)
          fresh == emN > old
@@ -95,16 +94,16 @@ Step ==
          b13 == Add(b12, seenClosed /\ ~e.closed, "C12_reopened", l + 1)
      IN /\ l' = l + 1
         /\ nW' = nW1 /\ wt' = wt1 /\ rc' = rc1 /\ rt' = rt1 /\ closedIn' = cin1 /\ tc' = tc1
-        /\ rdy' = rdy1 /\ eag' = eag1 /\ em' = em1 /\ dl' = dl1
+        /\ rdy' = rdy1 /\ eag' = eag1 /\ lapse' = lapse1 /\ em' = em1 /\ dl' = dl1
         /\ seenClosed' = (seenClosed \/ e.closed)
         /\ bad' = b13
-  /\ UNCHANGED <<done, cq, ci, ocap, nTot>>
+  /\ UNCHANGED <<done, cq, ci, ocap>>
 
 Finish ==
   /\ ~done /\ (IF l = NRec THEN TRUE ELSE TraceLog[l + 1].ev = "Reset")
   /\ PrintT(<<"VERDICT", TraceLog[l].tr, bad, <<rdy, eag, seenClosed, Len(em)>> >>)
   /\ done' = TRUE
-  /\ UNCHANGED <<l, cq, ci, ocap, nTot, closedIn, tc, nW, wt, rc, rt, em, rdy, eag, dl, seenClosed, bad>>
+  /\ UNCHANGED <<l, cq, ci, ocap, closedIn, tc, nW, wt, rc, rt, em, rdy, eag, lapse, dl, seenClosed, bad>>
 
 MNext == Step \/ Finish
 MSpec == MInit /\ [][MNext]_mvars
